@@ -12,7 +12,12 @@ use std::vec::Vec;
 
 pub use crate::lvalue::LValue;
 
+#[cfg(not(feature = "terohuttunen_proto_vulcan_verif"))]
 static UNIQUE_ID_COUNTER: AtomicUsize = AtomicUsize::new(0);
+// Verification hook: Kani 0.68 merges a zero-initialised mutable static with promoted zero
+// constants; a non-zero start value avoids that. Ids are only ever compared for equality.
+#[cfg(feature = "terohuttunen_proto_vulcan_verif")]
+static UNIQUE_ID_COUNTER: AtomicUsize = AtomicUsize::new(0x5043_0001);
 
 #[derive(Copy, Clone, Hash, PartialEq, Eq, Debug)]
 pub struct VarID(usize);
